@@ -310,6 +310,9 @@ def impl(case):
         u = unpack(c[None], np.array([var1]), np.array([nexp]))[0]
     except Exception as e:
         return dict(err=type(e).__name__)
+    if not np.isfinite(u).all():
+        # a decoded field that is not finite is an observation (finite fields go in), not a reason to stop the run
+        return dict(err='unpack returned non-finite values (%d of %d cells)' % (int((~np.isfinite(u)).sum()), u.size))
     return dict(bytes=b.astype(int).tolist(), nexp=int(nexp), var1=lib.show_rat(var1), ksum=int(ksum),
                 prec=lib.show_rat(prec), unpack=[[lib.show_rat(v) for v in r] for r in u.tolist()])
 
